@@ -127,7 +127,23 @@ def evaluate(binder, st, inst, key, n):
         return [("exception", err)], details
     real = [from_ring.get(h, 0) for h in plan]
     details["plan"] = real
-    return L.tokenaware_failures(real, head, tail, child, reps, up, dist, shuffle), details
+    fails = L.tokenaware_failures(real, head, tail, child, reps, up, dist, shuffle)
+    if shuffle and (reps or known_empty):
+        # concurrent requests for the same token: a plan consumed lazily while another one is created must still be a plan,
+        # and shuffling must not disturb the replica order the metadata reports
+        before = b.replicas(key)
+        plan2, err2 = b.plan(key, [to_ring[h] for h in child], {to_ring[h]: v for h, v in up.items()},
+                             {to_ring[h]: v for h, v in dist.items()}, shuffle, interleave=True)
+        if err2:
+            fails = fails + [("exception", err2)]
+        else:
+            real2 = [from_ring.get(h, 0) for h in plan2]
+            details["plan_interleaved"] = real2
+            fails = fails + [("interleaved:" + k, t) for k, t in
+                             L.tokenaware_failures(real2, head, tail, child, reps, up, dist, shuffle)]
+        if b.replicas(key) != before:
+            fails = fails + [("replica-order-mutated", "get_replicas order changed from %s to %s after a shuffled plan" % (before, b.replicas(key)))]
+    return fails, details
 
 
 def run(ctx):
